@@ -429,6 +429,9 @@ Outcome(t) ==
     [] b.k = "jump" -> IF st[s].jumps < b.n THEN "jump" ELSE "succ"
     [] b.k = "suspend" -> IF st[s].sig THEN "succ" ELSE "suspend"
 
+JumpTarget(t) ==   \* a script may name a different target per iteration
+  LET ts == P.beh[t].targets j == st[StageOf(t)].jumps + 1 IN ts[IF j <= Len(ts) THEN j ELSE Len(ts)]
+
 RunTaskGuard ==
   /\ H("RunTask")
   /\ LET t == Cur.t IN
@@ -493,7 +496,7 @@ RunTaskResult ==
                     /\ UNCHANGED <<wf, dlq, claims, ledger, cnt>>
           [] o = "jump" ->
                /\ st' = Bump(st, s) /\ tk' = Touch(tk, s)
-               /\ Commit(<<JumpM(s, P.beh[t].target), CompleteTaskM(t, "REDIRECT")>>, TRUE)
+               /\ Commit(<<JumpM(s, JumpTarget(t)), CompleteTaskM(t, "REDIRECT")>>, TRUE)
                /\ SetWk("hdone") /\ Label("RunTaskRedirect")
                /\ UNCHANGED <<wf, dlq, claims, ledger, cnt>>
           [] o = "suspend" ->
